@@ -33,6 +33,9 @@ func init() {
 
 func runC16(w *World, r *Report) {
 	hrGzipWholeBody(w, r, "R2")
+	hrObfuscationFlagAlwaysRead(w, r, "R3")
+	hrDecompressFallsBackToRaw(w, r, "R2")
+	hrHARPluginHasher(w, r, "R1")
 	hrContentEncodingFallback(w, r, "R2")
 	hrConstructorKeepsExclusions(w, r, "R3")
 	hrYAMLTagsMatchFields(w, r, "R3", "lunar/shared-model/config", "ObfuscationExclusions")
